@@ -209,6 +209,16 @@ PROPS["C15"] = {
     "assumptions": ["Vec::push, HashMap::insert are amortised O(1); moving a Vec is O(1)"],
 }
 
+PROPS["C11"] = {
+    "features": None,
+    "technique": "Lean 4 proof on the decision logic of send (request assembly, Basic credential = base64 round trip, status gate, parse of delivered body) composed with C01/C04/C07; both real clients against a scripted loopback HTTP/1.1 server",
+    "level_text": "Machine-checked theorems on Model/Http.lean: `one_post` (exactly one POST to the mapped path+query with Content-Type application/ipp), `body_decodes_to_request` (by C01: the body parses to exactly the request and its payload), `custom_header_last_wins`, `basic_credentials` + `basic_header_on_wire` (base64 round trip proved: the Authorization value decodes to user:password), `error_status_is_error`, `timeout_is_error`, `exact_response` (by C04: for every well-formed response and payload the returned value is exactly header, attributes and trailing data), `cut_is_error` (by C07: a connection cut anywhere before the end of the attributes never yields a success), `sends_are_independent`. Tie to the code: both real clients (ureq, reqwest on a tokio runtime) against the harness's loopback server: content-length / chunked / close-delimited framing with random write fragmentation, every status 400-599, cuts at every offset inside header+attributes under each framing, a stalled server against request_timeout, 16 concurrent senders; the captured request line, headers and de-chunked body and the returned value are diffed against the model and checked by direct oracles.",
+    "level_note": "Partial: the HTTP stacks, sockets, timers and thread scheduling are parameters; timeouts and concurrency are observed, not proved. reqwest adds its own Authorization header when the target URI carries user-info (library behaviour, outside the property: C11 targets carry none).",
+    "design_ref": "DESIGN.md section 9, C11",
+    "trusted_base": CODEC_TB + ["reqwest 0.12, ureq 2.12, hyper, tokio, the OS loopback stack (parameters of the model)", "harness/src/httpd.rs: the scripted HTTP/1.1 server and its request parser"],
+    "assumptions": ["the HTTP stack delivers the de-framed body bytes up to the cut point and signals the cut as end of stream or error"],
+}
+
 ALL_IDS = ["C%02d" % i for i in range(1, 21)]
 
 NOT_YET = "not claimed in this revision: the theorem/correspondence pair for this property is not built yet (see DESIGN.md section 13)"
